@@ -945,4 +945,221 @@ theorem canonPath_shape (path : Str) (m : Bool) (hp : AbsPath path) :
         · exact ⟨d, r ++ ['/'], by simp, hd⟩
         · exact ⟨d, r, rfl, hd⟩
 
+/-! ## the host rule brings in no delimiter -/
+
+/-- the characters `attempt_to_decode_idna` must not invent: URL delimiters, `%`, control
+characters, white space -/
+def isPunyBad (c : Char) : Bool :=
+  c = '/' || c = '?' || c = '#' || c = '@' || c = ':' || c = '[' || c = ']' || c = '%' ||
+    isControlChar c || isSpace c
+
+/-- what the round-trip theorems assume of `attempt_to_decode_idna` on top of `PunyLaws`:
+a delimiter, `%`, control or white-space character of the decoded label was in the label
+(tested on the real codec for every label decoded in a run) -/
+structure PunyClean (puny : Str → Str) : Prop where
+  clean : ∀ x c, c ∈ puny x → isPunyBad c = true → c ∈ x
+
+theorem punyClean_id : PunyClean id := ⟨fun _ _ h _ => h⟩
+
+theorem isSpace_not_lower {c : Char} (h : isSpace c = true) : ¬ (97 ≤ c.toNat ∧ c.toNat ≤ 122) := by
+  simp only [isSpace, spaceCodes, List.contains_cons, List.contains_nil, Bool.or_false,
+    Bool.or_eq_true, beq_iff_eq] at h
+  omega
+
+theorem punyBad_not_lower {c : Char} (h : isPunyBad c = true) :
+    ¬ (97 ≤ c.toNat ∧ c.toNat ≤ 122) := by
+  simp only [isPunyBad, Bool.or_eq_true, decide_eq_true_eq] at h
+  rcases h with ((((((((h | h) | h) | h) | h) | h) | h) | h) | h) | h
+  iterate 8 (subst h; decide)
+  · rw [isControlChar_iff] at h; omega
+  · exact isSpace_not_lower h
+
+theorem mem_lower_bad {c : Char} {s : Str} (hb : ¬ (97 ≤ c.toNat ∧ c.toNat ≤ 122))
+    (h : c ∈ lower s) : c ∈ s := by
+  simp only [Py.lower, List.mem_map] at h
+  obtain ⟨d, hd, e⟩ := h
+  have := lowerChar_eq_of_not_lower e hb
+  subst this; exact hd
+
+theorem mem_join (sep : Str) (L : List Str) {x : Char} (h : x ∈ join sep L) :
+    x ∈ sep ∨ ∃ p ∈ L, x ∈ p := by
+  induction L with
+  | nil => simp [join] at h
+  | cons a rest ih =>
+    cases rest with
+    | nil => simp only [join] at h; exact Or.inr ⟨a, by simp, h⟩
+    | cons b r =>
+      simp only [join, List.mem_append] at h
+      rcases h with (h | h) | h
+      · exact Or.inr ⟨a, by simp, h⟩
+      · exact Or.inl h
+      · rcases ih h with h' | ⟨p, hp, hx⟩
+        · exact Or.inl h'
+        · exact Or.inr ⟨p, by simp only [List.mem_cons] at hp ⊢; exact Or.inr hp, hx⟩
+
+/-- a "bad" character of the canonical host was in the host -/
+theorem canonHost_bad (puny : Str → Str) (hp : PunyClean puny) (h : Str) {c : Char}
+    (hb : isPunyBad c = true) (hc : c ∈ canonHost puny h) : c ∈ h := by
+  have hnl := punyBad_not_lower hb
+  unfold canonHost at hc
+  have h1 := mem_lower_bad hnl hc
+  unfold decodePunycodeHostname at h1
+  rcases mem_join _ _ h1 with h2 | ⟨q, hq, hx⟩
+  · simp only [List.mem_singleton] at h2; subst h2; exact absurd hb (by decide)
+  · simp only [List.mem_map] at hq
+    obtain ⟨part, hpart, rfl⟩ := hq
+    have hsub := piece_subset h '.' part hpart
+    split at hx
+    · have h3 := hp.clean _ c hx hb
+      rcases List.mem_append.1 h3 with h4 | h4
+      · exact hsub (List.mem_of_mem_take (mem_lower_bad hnl h4))
+      · exact hsub (List.mem_of_mem_drop h4)
+    · exact hsub hx
+
+theorem ctl_bad {c : Char} (h : isControlChar c = true) : isPunyBad c = true := by
+  simp [isPunyBad, h]
+
+theorem noCtl_canonHost (puny : Str → Str) (hp : PunyClean puny) {h : Str} (hn : NoCtl h) :
+    NoCtl (canonHost puny h) := by
+  intro c hc
+  cases hcc : isControlChar c with
+  | false => rfl
+  | true =>
+    have := canonHost_bad puny hp h (ctl_bad hcc) hc
+    rw [hn c this] at hcc; cases hcc
+
+/-! ## the optional text components -/
+
+theorem mem_strOf_canonOpt {q : Bool} {unq : Str → Str} {o : Option Str} {c : Char}
+    (h : c ∈ strOf (canonOpt q unq o)) : ∃ u, o = some u ∧ c ∈ requote q unq u := by
+  cases o with
+  | none => simp [canonOpt, strOf_none] at h
+  | some u =>
+    by_cases hu : u.isEmpty = true
+    · have : u = [] := by simpa using hu
+      subst this
+      simp [canonOpt, strOf_some] at h
+    · simp only [canonOpt, hu, Bool.false_eq_true, if_false, strOf_some] at h
+      exact ⟨u, rfl, h⟩
+
+theorem mem_getD_canonOpt {q : Bool} {unq : Str → Str} {o : Option Str} {c : Char}
+    (h : c ∈ (canonOpt q unq o).getD []) : ∃ u, o = some u ∧ (c ∈ requote q unq u ∨ c ∈ u) := by
+  cases o with
+  | none => simp [canonOpt] at h
+  | some u =>
+    by_cases hu : u.isEmpty = true
+    · simp only [canonOpt, hu, if_true, Option.getD_some] at h
+      exact ⟨u, rfl, Or.inr h⟩
+    · simp only [canonOpt, hu, Bool.false_eq_true, if_false, Option.getD_some] at h
+      exact ⟨u, rfl, Or.inl h⟩
+
+/-- the delimiters of the authority are never created in a userinfo item, in either mode
+(table obligation: they are all in `UNSAFE_FOR_AUTH_ITEM`) -/
+theorem requote_auth_not_mem {d : Char} (hd : d ∈ ['@', ':', '/', '?', '#', '[', ']'])
+    (quoted : Bool) (u : Str) (hu : d ∉ u) : d ∉ requote quoted unquoteAuthItem u := by
+  have h1 : d ∉ unquoteAuthItem u := by
+    simp only [List.mem_cons, List.not_mem_nil, or_false] at hd
+    rcases hd with rfl | rfl | rfl | rfl | rfl | rfl | rfl <;>
+      exact not_mem_safelyUnquote _ ⟨by decide, by decide⟩ (by decide) (by decide) u hu
+  unfold requote
+  split
+  · simp only [List.mem_cons, List.not_mem_nil, or_false] at hd
+    rcases hd with rfl | rfl | rfl | rfl | rfl | rfl | rfl <;>
+      exact not_mem_safelyQuote_of_not_mem ⟨by decide, by decide⟩ _ h1
+  · exact h1
+
+/-! ## the query -/
+
+/-- the keys and values of a list of query items -/
+def qslStrs (qsl : List (Str × Option Str)) : List Str :=
+  qsl.flatMap fun kv => kv.1 :: kv.2.toList
+
+theorem mem_serialize {c : Char} {qsl : List (Str × Option Str)}
+    (h : c ∈ safeSerializeQsl qsl) : c = '&' ∨ c = '=' ∨ ∃ x ∈ qslStrs qsl, c ∈ x := by
+  rw [safeSerializeQsl_eq] at h
+  rcases mem_join _ _ h with h | ⟨p, hp, hc⟩
+  · simp only [List.mem_singleton] at h; exact Or.inl h
+  · simp only [List.mem_map] at hp
+    obtain ⟨⟨k, v⟩, hkv, rfl⟩ := hp
+    cases v with
+    | none =>
+      simp only [serializeItem] at hc
+      exact Or.inr (Or.inr ⟨k, by simp only [qslStrs, List.mem_flatMap]; exact ⟨_, hkv, by simp⟩, hc⟩)
+    | some v =>
+      simp only [serializeItem, List.mem_append, List.mem_singleton] at hc
+      rcases hc with (hc | hc) | hc
+      · exact Or.inr (Or.inr ⟨k, by simp only [qslStrs, List.mem_flatMap]; exact ⟨_, hkv, by simp⟩, hc⟩)
+      · exact Or.inr (Or.inl hc)
+      · exact Or.inr (Or.inr ⟨v, by simp only [qslStrs, List.mem_flatMap]; exact ⟨_, hkv, by simp⟩, hc⟩)
+
+theorem qslStrs_safeQslIter (q : Str) : ∀ x ∈ qslStrs (safeQslIter q), x ⊆ q := by
+  intro x hx
+  simp only [qslStrs, safeQslIter_eq, List.mem_flatMap, List.mem_map] at hx
+  obtain ⟨kv, ⟨item, hitem, rfl⟩, hx⟩ := hx
+  have hsub := piece_subset q '&' item hitem
+  have hs := splitFirst_spec '=' item
+  simp only [List.mem_cons] at hx
+  cases h2 : (cutFirst '=' item).2 with
+  | none =>
+    rw [h2] at hs hx
+    simp only [Option.toList_none, List.not_mem_nil, or_false] at hx
+    subst hx
+    intro y hy; apply hsub; rw [hs.2]; exact hy
+  | some v =>
+    rw [h2] at hs hx
+    simp only [Option.toList_some, List.mem_singleton] at hx
+    intro y hy; apply hsub; rw [hs.2]
+    rcases hx with rfl | rfl
+    · simp [hy]
+    · simp [hy]
+
+theorem qslStrs_unquoteQsl (L : List (Str × Option Str)) :
+    ∀ x ∈ qslStrs (unquoteQsl L), ∃ y ∈ qslStrs L, x = unquoteQueryItem y := by
+  intro x hx
+  simp only [qslStrs, unquoteQsl, List.mem_flatMap, List.mem_map] at hx ⊢
+  obtain ⟨kv', ⟨⟨k, v⟩, hkv, rfl⟩, hx⟩ := hx
+  simp only [List.mem_cons] at hx
+  rcases hx with rfl | hx
+  · exact ⟨k, ⟨(k, v), hkv, by simp⟩, rfl⟩
+  · cases v with
+    | none => simp at hx
+    | some v0 =>
+      simp only [Option.map_some, Option.toList_some, List.mem_singleton] at hx
+      exact ⟨v0, ⟨(k, some v0), hkv, by simp⟩, hx⟩
+
+theorem qslStrs_quoteQsl (L : List (Str × Option Str)) :
+    ∀ x ∈ qslStrs (quoteQsl L), ∃ y ∈ qslStrs L, x = safelyQuote y := by
+  intro x hx
+  simp only [qslStrs, quoteQsl, List.mem_flatMap, List.mem_map] at hx ⊢
+  obtain ⟨kv', ⟨⟨k, v⟩, hkv, rfl⟩, hx⟩ := hx
+  simp only [List.mem_cons] at hx
+  rcases hx with rfl | hx
+  · exact ⟨k, ⟨(k, v), hkv, by simp⟩, rfl⟩
+  · cases v with
+    | none => simp at hx
+    | some v0 =>
+      simp only [Option.map_some, Option.toList_some, List.mem_singleton] at hx
+      exact ⟨v0, ⟨(k, some v0), hkv, by simp⟩, hx⟩
+
+/-- every character of the canonical query is `&`, `=`, or a character of a re-quoted
+piece of the query -/
+theorem mem_canonQuery {c : Char} {quoted : Bool} {q : Str} (h : c ∈ canonQuery quoted q) :
+    c = '&' ∨ c = '=' ∨ ∃ y, y ⊆ q ∧ c ∈ requote quoted unquoteQueryItem y := by
+  unfold canonQuery at h
+  simp only at h
+  rcases mem_serialize h with h | h | ⟨x, hx, hc⟩
+  · exact Or.inl h
+  · exact Or.inr (Or.inl h)
+  · right; right
+    cases quoted with
+    | false =>
+      simp only [Bool.false_eq_true, if_false] at hx
+      obtain ⟨y, hy, rfl⟩ := qslStrs_unquoteQsl _ x hx
+      exact ⟨y, qslStrs_safeQslIter q y hy, by simpa [requote] using hc⟩
+    | true =>
+      simp only [if_true] at hx
+      obtain ⟨z, hz, rfl⟩ := qslStrs_quoteQsl _ x hx
+      obtain ⟨y, hy, rfl⟩ := qslStrs_unquoteQsl _ z hz
+      exact ⟨y, qslStrs_safeQslIter q y hy, by simpa [requote] using hc⟩
+
 end Ural.CanonRoundTrip
